@@ -5,6 +5,7 @@ pub mod h_tree;
 pub mod h_pack;
 pub mod h_melda;
 pub mod h_c08;
+pub mod h_c18;
 pub mod h_c11;
 pub mod h_c09;
 pub mod h_c02;
@@ -25,6 +26,8 @@ pub fn dispatch(name: &str) -> bool {
         "h_tree::tree_rule" => h_tree::tree_rule(),
         "h_pack::pack_roundtrip" => h_pack::pack_roundtrip(),
         "h_melda::smoke" => h_melda::smoke(),
+        "h_c18::independent" => h_c18::independent(),
+        "h_c18::converge" => h_c18::converge(),
         "h_c11::content_addressed" => h_c11::content_addressed(),
         "h_c11::adapter_contract" => h_c11::adapter_contract(),
         "h_c09::commit_faults" => h_c09::commit_faults(),
